@@ -355,7 +355,9 @@ func (r *FnRun) freshVal(st *State, t types.Type, hint string) Val {
 	}
 	tm := r.fresh(hint, r.sortOf(t))
 	r.assumeRange(st, tm, t)
-	if _, ok := under(t).(*types.Pointer); ok {
+	switch under(t).(type) {
+	case *types.Pointer, *types.Map, *types.Chan:
+		// whatever it refers to exists in this state
 		r.assume(Le(tm, st.top))
 		r.assume(Ge(tm, IntLit(0)))
 	}
